@@ -10,6 +10,7 @@ import (
 	"github.com/zclconf/go-cty/cty"
 
 	h "lssim/harness"
+	"lssim/model"
 	"lssim/world"
 )
 
@@ -161,6 +162,60 @@ func twinnable(p *h.PathState) bool {
 	return true
 }
 
+// onlyStringIndexed: every origin present in one syntax only is native-only
+// and has a quoted index key.
+func onlyStringIndexed(a, b []string) bool {
+	inB := map[string]int{}
+	for _, s := range b {
+		inB[s]++
+	}
+	inA := map[string]int{}
+	for _, s := range a {
+		inA[s]++
+	}
+	n := 0
+	for _, s := range b {
+		if inA[s] < inB[s] {
+			return false
+		}
+	}
+	for _, s := range a {
+		if inB[s] < inA[s] {
+			if !strings.Contains(s, "[\"") {
+				return false
+			}
+			n++
+		}
+	}
+	return n > 0
+}
+
+// attrValueStepsKnown: every attribute-value step of a block address names an
+// attribute of that block's static body (JSON cannot see unknown attributes).
+func attrValueStepsKnown(b *world.BodySpec) bool {
+	if b == nil {
+		return true
+	}
+	for _, bl := range b.Blocks {
+		if bl.Addr != nil {
+			for _, st := range bl.Addr.Steps {
+				if st.K == "attrvalue" && (bl.Body == nil || bl.Body.Attr(st.Name) == nil) {
+					return false
+				}
+			}
+		}
+		if !attrValueStepsKnown(bl.Body) {
+			return false
+		}
+		for _, d := range bl.Dep {
+			if !attrValueStepsKnown(d.Body) {
+				return false
+			}
+		}
+	}
+	return true
+}
+
 func (o *C19) Check(x *h.Exec, ev *h.Event) {
 	c := ev.Check
 	for pi, p := range x.S.Paths {
@@ -176,6 +231,48 @@ func (o *C19) Check(x *h.Exec, ev *h.Event) {
 		if !ok {
 			x.Cov.Probe("paths_outside_fragment")
 			continue
+		}
+		known, certain := schemaKnownNames(p)
+		if !attrValueStepsKnown(p.Spec.Schema) {
+			certain = false
+		}
+		// an address step taken from an attribute value that is not a plain string
+		// literal: JSON evaluates "${x}" without variables to the literal text
+		for _, f := range p.Files {
+			model.Walk(p.Spec.Schema, f.Spec.Items, func(mc *model.Ctx) {
+				// a block written in a body that accepts any attribute cannot be told
+				// from an attribute in JSON
+				if mc.Body != nil && mc.Body.Any != nil {
+					for _, it := range mc.Items {
+						if it.Block != nil {
+							certain = false
+						}
+					}
+				}
+				if mc.Block == nil || mc.Block.Addr == nil {
+					return
+				}
+				for _, st := range mc.Block.Addr.Steps {
+					if st.K != "attrvalue" {
+						continue
+					}
+					for _, it := range mc.Items {
+						if it.Attr != nil && it.Attr.Name == st.Name && (it.Attr.Expr == nil || it.Attr.Expr.K != "str" || strings.Contains(it.Attr.Expr.S, "${")) {
+							certain = false
+						}
+					}
+				}
+			})
+		}
+		if !certain {
+			// label counts that differ from the schema or key attributes written
+			// as references: what JSON decodes there is not defined
+			x.Cov.Probe("paths_uncertain")
+			continue
+		}
+		knownSet := map[string]bool{}
+		for _, k := range known {
+			knownSet[k] = true
 		}
 		x.Cov.Probe("paths_compared")
 		// the twin: same model, files rendered as JSON
@@ -210,6 +307,33 @@ func (o *C19) Check(x *h.Exec, ev *h.Event) {
 				a, b = targetSigs(rn.Val.(reference.Targets)), targetSigs(rj.Val.(reference.Targets))
 			case "origins":
 				a, b = originSigs(rn.Val.(reference.Origins)), originSigs(rj.Val.(reference.Origins))
+				// a string literal written where a reference is expected reads as a
+				// legacy bare reference in JSON; native syntax keeps it a string. The
+				// two renderings are not the same configuration there.
+				lits := map[string]bool{}
+				for _, f := range p.Spec.Files {
+					world.WalkItems(f.Items, func(it *world.Item, d int) {
+						if it.Attr != nil {
+							it.Attr.Expr.Walk(func(e *world.Expr) {
+								if e.K == "str" {
+									lits["L|"+e.S] = true
+								}
+							})
+						}
+					})
+				}
+				inA := map[string]int{}
+				for _, s := range a {
+					inA[s]++
+				}
+				var fb []string
+				for _, s := range b {
+					if lits[s] && inA[s] == 0 {
+						continue
+					}
+					fb = append(fb, s)
+				}
+				b = fb
 			case "symbols_ws":
 				// only this path's symbols
 				var na []decoder.Symbol
@@ -218,13 +342,33 @@ func (o *C19) Check(x *h.Exec, ev *h.Event) {
 						na = append(na, s)
 					}
 				}
-				a, b = symbolSigs(na, 0), symbolSigs(rj.Val.([]decoder.Symbol), 0)
+				// JSON is decoded through the schema: compare the schema-known outline
+				for _, n := range symNames(na) {
+					if knownSet[n] {
+						a = append(a, n)
+					}
+				}
+				for _, n := range symNames(rj.Val.([]decoder.Symbol)) {
+					if i := strings.Index(n, "dynamic \""); i >= 0 && strings.Contains(n[i:], "/") {
+						continue
+					}
+					b = append(b, n)
+				}
+				sort.Strings(a)
+				sort.Strings(b)
 			}
 			if len(a) > 0 {
 				x.Cov.Probe("nonempty_" + kind)
 			}
 			if d := diffSets(a, b); d != "" {
-				x.Report("syntaxes-disagree", kind, "", fmt.Sprintf("%s of path %s differ between native syntax and JSON: %s", kind, p.Path.Path, d), &qn)
+				shape := ""
+				if kind == "origins" && onlyStringIndexed(a, b) {
+					// references with a quoted index key inside a JSON string: the
+					// escaped quotes defeat the library's range-based guess that the
+					// string holds exactly one traversal (recorded finding)
+					shape = "string-index-key"
+				}
+				x.Report("syntaxes-disagree", kind, shape, fmt.Sprintf("%s of path %s differ between native syntax and JSON: %s", kind, p.Path.Path, d), &qn)
 				return
 			}
 		}
